@@ -5,7 +5,7 @@
 From H3V Require Import Base.Bytes Gen.GenStatic Spec.PrefixInt Spec.RFC7541Huffman Spec.HuffmanKnown
   Spec.RFC9204AppendixA Spec.RFC9204Static Spec.FieldSize
   Model.PrefixInt Model.Huffman Model.PrefixString Model.Static Model.QpackStateless
-  Proofs.HuffmanDecodeProofs Proofs.StaticTableProofs Proofs.QpackSpecLemmas Proofs.QpackStatelessProofs Proofs.QpackEncodeProofs.
+  Proofs.HuffmanDecodeProofs Proofs.StaticTableProofs Proofs.QpackSpecLemmas Proofs.QpackStatelessProofs Proofs.QpackEncodeProofs Proofs.QpackRoundtrip.
 
 (* ================================================================ T1: h3 writes RFC 9204 *)
 
@@ -19,6 +19,21 @@ Proof.
   intros fs Hwf. destruct (encode_writes_rfc fs Hwf) as (bs & He & Hwb & Hs).
   exists bs. repeat split; try assumption. apply rfc_decode_static_iff; assumption.
 Qed.
+
+(* the round trip through h3's OWN decoder: same list, same order, same size, and accepted under every limit the
+   size fits.  [small_field]: octets, strings shorter than 2^26 (h3's Huffman decoder addresses bits with u32) *)
+Theorem C11_roundtrip :
+  forall fs, Forall small_field fs ->
+    exists bs, encode_stateless fs = Ok (bs, section_size fs) /\ wf_bytes bs /\
+               decode_stateless None bs = Ok (fs, section_size fs) /\
+               forall L, section_size fs <= L -> decode_stateless (Some L) bs = Ok (fs, section_size fs).
+Proof. exact stateless_roundtrip. Qed.
+
+(* length of the block h3 writes, against the RFC 9114 size of the list *)
+Theorem C11_encoded_block_length :
+  forall fs bs size, Forall wf_field fs -> encode_stateless fs = Ok (bs, size) ->
+    len bs + 106 * N.of_nat (length fs) <= 2 + 4 * section_size fs.
+Proof. exact encode_stateless_length. Qed.
 
 (* the executable oracle IS the grammar *)
 Theorem C11_reference_decoder_decides_grammar :
@@ -188,6 +203,8 @@ Proof.
 Qed.
 
 Print Assumptions C11_encode_writes_rfc9204.
+Print Assumptions C11_roundtrip.
+Print Assumptions C11_encoded_block_length.
 Print Assumptions C11_reference_decoder_decides_grammar.
 Print Assumptions C11_accepts_only_rfc9204_or_known_class.
 Print Assumptions C11_accepts_only_rfc9204_outside_known_class.
